@@ -208,7 +208,7 @@ impl Property for C03 {
         vec![
             "fallback configured = SimpleOovPlugin is the last OOV provider (the shipped shape)",
             "the normalised length used by the success clause comes from the harness' reference normaliser (unicode-normalization crate)",
-            "known finding F7 (i32 path-cost overflow, needs > 32,768 tokens at ~65,534 cost per step) is outside the generated domain by construction (texts <= 200 characters; the length family uses moderate costs) and pinned by a reproducer",
+            "known finding F7 (i32 path-cost overflow, needs tens of thousands of tokens at costs near the ends of i16) is excluded by the predicate common::f7_class (largest |word cost| + |connection cost| times an upper bound of the token count reaches 2^31; counted in the evidence) and pinned by a reproducer; the length family uses moderate costs",
             "a case that does not finish within the watchdog limit (120 s; cases take milliseconds) is reported as a violation of this property: termination is what it states",
         ]
     }
@@ -258,6 +258,9 @@ impl Property for C03 {
         let keys = all_keys(&case.dic);
         for t in &case.texts {
             let text = render_pieces(&keys, t);
+            if f7_guard(&mut rep, &case.dic, &case.cfg, &text, ctx.strict) {
+                continue;
+            }
             let mut widths = std::collections::BTreeSet::new();
             let mut special = false;
             for c in text.chars() {
@@ -280,7 +283,7 @@ impl Property for C03 {
         // the same texts once more on ONE reused tokenizer and result list, with a rejected input
         // (normalised form too long / input too long) in between: still no panic, and accepted
         // analyses still partition the text (what a long-lived tokenizer object goes through)
-        if case.subset % 4 == 1 && case.texts.iter().map(|t| t.len()).sum::<usize>() < 200 {
+        if case.subset % 4 == 1 && case.texts.iter().map(|t| t.len()).sum::<usize>() < 200 && !case.texts.iter().any(|t| f7_class(&case.dic, &case.cfg, &render_pieces(&keys, t))) {
             use sudachi::analysis::stateful_tokenizer::StatefulTokenizer;
             let mut seq: Vec<String> = Vec::new();
             for (i, t) in case.texts.iter().enumerate() {
@@ -392,6 +395,25 @@ pub fn fixtures() -> Vec<(&'static str, Case, &'static str)> {
         "f12-join-numeric-hang.json",
         Case { dic, cfg, texts: vec![vec![Piece::Raw("1".into())]], subset: 0xffff },
         "F12: a NUMERIC-class token whose dictionary normalised form is ',' makes JoinNumericPlugin rewind to the same token forever",
+    ));
+    // F23: RegexOovProvider with maxLength = usize::MAX
+    let sym = pos_from_str(POS_SYM);
+    let noun = pos_from_str(POS_NOUN);
+    let dic = DicModel { matrix: Matrix { nl: 1, nr: 1, lines: vec![] }, system: vec![Entry::simple("京都", 0, 0, 100, &noun)], users: vec![] };
+    let cfg = CfgModel {
+        chardef: FileSrc::Shipped,
+        input: vec![],
+        oov: vec![
+            OovPlugin::Regex { pos: noun.clone(), left: 0, right: 0, cost: 100, regex: "[a-z]+".into(), max_length: Some(usize::MAX), strict: None, user_pos: Some(true) },
+            OovPlugin::Simple { pos: sym, left: 0, right: 0, cost: 3000, user_pos: Some(true) },
+        ],
+        inhibit: None,
+        path: vec![],
+    };
+    v.push((
+        "f23-regex-max-length-overflow.json",
+        Case { dic, cfg, texts: vec![vec![Piece::Raw("京都abc".into())]], subset: 0xffff },
+        "F23: RegexOovProvider accepts maxLength = 18446744073709551615; at every offset > 0 `offset + max_length` overflows (panic with overflow checks on, a wrapped window without)",
     ));
     v
 }
